@@ -27,7 +27,7 @@ import (
 
 type accRec struct {
 	pkg, variable, kind, ctx, fn string
-	line                        int
+	line                         int
 }
 
 func extractAccess(repo string) (recs []accRec, onces map[string]bool, workerWrites []string, err error) {
